@@ -47,6 +47,23 @@ key!(QN);
 key!(QF);
 key!(QP);
 
+/// "wide" caller: 65536 keys, each reads computed node 0 (fan-in beyond the
+/// 1024-element threshold of the cached key-to-set map)
+#[derive(
+    Debug, Clone, Copy, PartialEq, Eq, PartialOrd, Ord, Hash, StableHash, Encode, Decode, Identifiable,
+)]
+pub struct QW(pub u16);
+
+impl Query for QW {
+    type Value = Val;
+}
+
+thread_local! {
+    /// completed activations of `QW` executors (one shuttle execution runs on
+    /// one OS thread)
+    pub static WIDE_RUNS: std::cell::Cell<u64> = const { std::cell::Cell::new(0) };
+}
+
 #[derive(Clone, Copy, Debug, PartialEq, Eq, Hash, PartialOrd, Ord)]
 pub enum Dep {
     In(u8),
@@ -149,9 +166,15 @@ pub enum Key {
 
 #[derive(Clone, Debug, PartialEq, Eq)]
 pub enum Event {
+    /// marker: the first executor is being unwound; the payload is the
+    /// number of callee registrations the engine had made by then
+    /// (`qbice_verif_rt::events::edge_count`)
+    FirstUnwind { edges: usize },
     Enter { key: Key, act: usize, epoch_tag: u64 },
     Read { act: usize, dep: Dep, val: Val },
     Exit { key: Key, act: usize, val: Option<Val> },
+    /// executor of `key` is about to request `dep` (logged before the await)
+    Req { key: Key, dep: Dep },
 }
 
 #[derive(Debug, Default)]
@@ -186,6 +209,15 @@ pub struct Shared {
     pub fault: Mutex<Option<Fault>>,
     /// yield inside executors between reads (more interleavings)
     pub yield_in_exec: bool,
+    /// nodes whose `Edges` body reads all enabled targets concurrently
+    /// (join_all) instead of one after the other
+    pub join_nodes: Mutex<Vec<u8>>,
+    /// nodes whose `Edges` body reads every enabled target in a spawned
+    /// helper task (own clone of the tracked engine) and joins the helpers
+    pub spawn_nodes: Mutex<Vec<u8>>,
+    /// like `spawn_nodes`, but the executor returns its base value without
+    /// joining: the helpers finish after the executor has returned
+    pub detach_nodes: Mutex<Vec<u8>>,
 }
 
 pub const FAULT_MSG: &str = "injected executor fault";
@@ -199,6 +231,9 @@ impl Shared {
             epoch_tag: Mutex::new(0),
             fault: Mutex::new(None),
             yield_in_exec: false,
+            join_nodes: Mutex::new(Vec::new()),
+            spawn_nodes: Mutex::new(Vec::new()),
+            detach_nodes: Mutex::new(Vec::new()),
         })
     }
 
@@ -210,6 +245,9 @@ impl Shared {
             epoch_tag: Mutex::new(0),
             fault: Mutex::new(None),
             yield_in_exec: true,
+            join_nodes: Mutex::new(Vec::new()),
+            spawn_nodes: Mutex::new(Vec::new()),
+            detach_nodes: Mutex::new(Vec::new()),
         })
     }
 
@@ -271,6 +309,9 @@ impl Drop for Activation {
         if let Some(p) = l.active.iter().position(|k| *k == self.key) {
             l.active.remove(p);
         }
+        if self.val.is_none() && !l.events.iter().any(|e| matches!(e, Event::FirstUnwind { .. })) {
+            l.events.push(Event::FirstUnwind { edges: qbice_verif_rt::events::edge_count() });
+        }
         l.events.push(Event::Exit { key: self.key, act: self.act, val: self.val });
     }
 }
@@ -281,6 +322,7 @@ async fn read<C: Config>(
     d: Dep,
 ) -> Val {
     let sh = act.sh.clone();
+    sh.log.lock().unwrap().events.push(Event::Req { key: act.key, dep: d });
     let v = read_raw(&sh, eng, d).await;
     sh.log.lock().unwrap().events.push(Event::Read { act: act.act, dep: d, val: v });
     act.reads += 1;
@@ -347,6 +389,72 @@ async fn run_body<C: Config>(
         Body::ConstRead(d) => {
             let _ = read(&mut act, eng, d).await;
             0
+        }
+        Body::Edges(base, es)
+            if sh.spawn_nodes.lock().unwrap().contains(&k)
+                || sh.detach_nodes.lock().unwrap().contains(&k) =>
+        {
+            let detach = sh.detach_nodes.lock().unwrap().contains(&k);
+            let mut on = Vec::new();
+            for (g, d) in es {
+                let e = match g {
+                    Some(g) => read(&mut act, eng, Dep::In(g)).await != 0,
+                    None => true,
+                };
+                if e {
+                    on.push(d);
+                }
+            }
+            let mut hs = Vec::new();
+            for d in &on {
+                let (sh2, eng2, d) = (sh.clone(), eng.clone(), *d);
+                hs.push(qbice_verif_rt::tokio::spawn(async move {
+                    sh2.log.lock().unwrap().events.push(Event::Req { key: Key::C(k), dep: d });
+                    read_raw(&sh2, &eng2, d).await
+                }));
+            }
+            let mut s = base;
+            if !detach {
+                for (d, h) in on.iter().zip(hs) {
+                    match h.await {
+                        Ok(v) => {
+                            sh.log.lock().unwrap().events.push(Event::Read { act: act.act, dep: *d, val: v });
+                            act.reads += 1;
+                            s = (s + v) % 5;
+                        }
+                        // the helper was unwound (cyclic read): so is this executor
+                        Err(e) => match e.try_into_panic() {
+                            Ok(p) => std::panic::resume_unwind(p),
+                            Err(_) => panic!("helper task was cancelled"),
+                        },
+                    }
+                }
+            }
+            s
+        }
+        Body::Edges(base, es) if sh.join_nodes.lock().unwrap().contains(&k) => {
+            let mut on = Vec::new();
+            for (g, d) in es {
+                let e = match g {
+                    Some(g) => read(&mut act, eng, Dep::In(g)).await != 0,
+                    None => true,
+                };
+                if e {
+                    on.push(d);
+                }
+            }
+            let vals = futures::future::join_all(on.iter().map(|d| async move {
+                sh.log.lock().unwrap().events.push(Event::Req { key: Key::C(k), dep: *d });
+                read_raw(sh, eng, *d).await
+            }))
+            .await;
+            let mut s = base;
+            for (d, v) in on.iter().zip(vals) {
+                sh.log.lock().unwrap().events.push(Event::Read { act: act.act, dep: *d, val: v });
+                act.reads += 1;
+                s = (s + v) % 5;
+            }
+            s
         }
         Body::Edges(base, es) => {
             let mut s = base;
@@ -430,6 +538,21 @@ exec!(ExecF, QF, ExecutionStyle::Firewall, SCC_F);
 exec!(ExecP, QP, ExecutionStyle::Projection, SCC_P);
 
 #[derive(Debug)]
+pub struct ExecW(pub Arc<Shared>);
+
+impl<C: Config> Executor<QW, C> for ExecW {
+    async fn execute(&self, _query: &QW, engine: &TrackedEngine<C>) -> Val {
+        let v = match self.0.program.nodes[0].style {
+            Style::N => engine.query(&QN(0)).await,
+            Style::F => engine.query(&QF(0)).await,
+            Style::P => engine.query(&QP(0)).await,
+        };
+        WIDE_RUNS.with(|c| c.set(c.get() + 1));
+        v
+    }
+}
+
+#[derive(Debug)]
 pub struct ExecX(pub Arc<Shared>);
 
 impl<C: Config> Executor<QX, C> for ExecX {
@@ -449,4 +572,5 @@ pub fn register_all<C: Config>(eng: &mut qbice::Engine<C>, sh: &Arc<Shared>) {
     eng.register_executor::<QF, _>(Arc::new(ExecF(sh.clone())));
     eng.register_executor::<QP, _>(Arc::new(ExecP(sh.clone())));
     eng.register_executor::<QX, _>(Arc::new(ExecX(sh.clone())));
+    eng.register_executor::<QW, _>(Arc::new(ExecW(sh.clone())));
 }
